@@ -126,8 +126,8 @@ def applyOp (op : Op) (vs : List Val) : Val :=
   | .signExt n, [.bv w a] => if 0 < w then .bv (w + n) (BitVec.signExtend (w + n) (BitVec.ofNat w a)).toNat else .err
   | .reverse, [a] => valReverse a
   | .ite, [c, a, b] => valIte c a b
-  | .and, _ :: _ => foldVals (boolBin (· && ·)) vs
-  | .or, _ :: _ => foldVals (boolBin (· || ·)) vs
+  | .and, _ :: _ => vs.foldl (boolBin (· && ·)) (.bool true)
+  | .or, _ :: _ => vs.foldl (boolBin (· || ·)) (.bool false)
   | .not, [a] => valNot a
   | _, _ => .err
 
@@ -167,13 +167,15 @@ instance : BEq Expr := ⟨Expr.beq⟩
 
 /-- `length` of a node from the lengths of its arguments, as the `calc_length` functions compute it
 (none for Booleans / ill-sized) -/
+def sumWidths (ws : List (Option Nat)) (acc : Option Nat) : Option Nat :=
+  ws.foldl (fun acc a => match acc, a with | some x, some y => some (x + y) | _, _ => none) acc
+
 def widthOf (op : Op) (ws : List (Option Nat)) : Option Nat :=
   match op, ws with
   | .extract hi lo, _ => some (hi + 1 - lo)
   | .zeroExt n, [a] => a.map (· + n)
   | .signExt n, [a] => a.map (· + n)
-  | .concat, _ => ws.foldl (fun acc a => match acc, a with
-      | some x, some y => some (x + y) | _, _ => none) (some 0)
+  | .concat, _ => sumWidths ws (some 0)
   | .ite, [_, a, _] => a
   | .eq, _ | .ne, _ | .ult, _ | .ule, _ | .ugt, _ | .uge, _ | .slt, _ | .sle, _ | .sgt, _ | .sge, _
   | .and, _ | .or, _ | .not, _ => none
